@@ -50,6 +50,7 @@ ASSUMPTIONS = ["coordinates are finite numbers: ints, integer-valued floats, and
                "(or multi-polygon member) without any ring is invalid under every reading"]
 
 OPEN, CLOSE = -98, -99
+ABSENT = -97         # GeomValidate!ABSENT: the structure [ABSENT] means "no coordinates key / argument / attribute at all"
 CONTS = ["list", "tuple", "inner", "outer"]          # GeomValidate!Containers (random cases carry it like the enumerated ones)
 ENTRIES = ["ctor", "model_validate", "gv_json", "gv_dict", "gv_attr", "sound_event"]
 NUMS = ["float", "int"]
@@ -145,15 +146,45 @@ class _ForeignExtra(BaseModel):
     score: float = 0.5
 
 
-GUISES = {"namespace": lambda **d: SimpleNamespace(**d), "plain": _Plain, "dataclass": _DataClass, "namedtuple": _NamedTuple,
-          "pydantic": _Foreign.model_construct, "pydantic_extra": _ForeignExtra.model_construct}
+# the same carriers without a `coordinates` attribute
+class _PlainT:
+    def __init__(self, type):
+        self.type = type
 
 
-def _call(entry, kind, c):
+@dataclasses.dataclass
+class _DataClassT:
+    type: str
+
+
+_NamedTupleT = collections.namedtuple("_NamedTupleT", ["type"])
+
+
+class _ForeignT(BaseModel):
+    type: str
+
+
+class _ForeignExtraT(BaseModel):
+    type: str
+    note: str = "mine"
+    score: float = 0.5
+
+
+def _either(full, type_only):
+    return lambda **d: (full if "coordinates" in d else type_only)(**d)
+
+
+GUISES = {"namespace": lambda **d: SimpleNamespace(**d), "plain": _either(_Plain, _PlainT),
+          "dataclass": _either(_DataClass, _DataClassT), "namedtuple": _either(_NamedTuple, _NamedTupleT),
+          "pydantic": _either(_Foreign.model_construct, _ForeignT.model_construct),
+          "pydantic_extra": _either(_ForeignExtra.model_construct, _ForeignExtraT.model_construct)}
+
+
+def _call(entry, kind, c, absent=False):
     cls = getattr(data, kind)
-    d = {"type": kind, "coordinates": copy.deepcopy(c)}
+    d = {"type": kind} if absent else {"type": kind, "coordinates": copy.deepcopy(c)}
     if entry == "ctor":
-        return cls(coordinates=d["coordinates"])
+        return cls() if absent else cls(coordinates=d["coordinates"])
     if entry == "model_validate":
         return cls.model_validate(d)
     if entry == "gv_json":
@@ -177,10 +208,10 @@ def contain(c, how, top=True):
     return tuple(items) if as_tuple else items
 
 
-def _build(entry, kind, value):
+def _build(entry, kind, value, absent=False):
     """call one entry point; returns (geometry, None) or (None, exception) or ("other", object)."""
     try:
-        g = _call(entry, kind, value)
+        g = _call(entry, kind, value, absent)
     except Exception as ex:  # an observation
         return None, ex
     return g, None
@@ -189,8 +220,9 @@ def _build(entry, kind, value):
 def _run(entry, num, kind, c, table=None, back=None, cont="list"):
     r = {"entry": entry, "num": num, "cont": cont, "res": "", "exc": "", "verr": False, "cls": "", "tag": "", "coords": [],
          "eq": "", "cls2": "", "coords2": [], "twin": "", "dumpeq": ""}
+    absent = c == ABSENT                       # no coordinates handed over at all
     value = render(c, num, table)
-    g, ex = _build(entry, kind, contain(value, cont))
+    g, ex = _build(entry, kind, contain(value, cont), absent)
     if ex is not None:
         r.update(res="raise", exc=type(ex).__name__, verr=isinstance(ex, ValueError))
         return r
